@@ -34,6 +34,7 @@ import (
 	discovery "github.com/envoyproxy/go-control-plane/envoy/service/discovery/v3"
 
 	"istio.io/istio/pilot/pkg/model"
+	"istio.io/istio/pilot/pkg/networking/core"
 	"istio.io/istio/pilot/pkg/util/protoconv"
 	"istio.io/istio/pilot/pkg/xds"
 	v3 "istio.io/istio/pilot/pkg/xds/v3"
@@ -55,9 +56,19 @@ func rebuildProxy(d proxyDef) *model.Proxy {
 }
 
 // generateAll: everything the real generators produce for the fixed proxies under push context ps
-func generateAll(st *site, ps *model.PushContext) map[string]string {
+//
+// cached = true: through a config generator and an EDS generator that share the SERVER's xDS cache
+// (the one the connected clients' pushes fill and the server's ConfigUpdate / Push clear), with
+// a request start time so that the cache accepts writes; cached = false: no cache at all.
+func generateAll(st *site, ps *model.PushContext, cached bool) map[string]string {
 	out := map[string]string{}
 	env := st.s.Discovery.Env
+	var cg core.ConfigGenerator = st.s.ConfigGen
+	var edsCache model.XdsCache = model.DisabledCache{}
+	start := time.Time{}
+	if cached {
+		cg, edsCache, start = core.NewConfigGenerator(st.s.Discovery.Cache), st.s.Discovery.Cache, time.Now()
+	}
 	put := func(proxy, typ string, rs []*discovery.Resource) {
 		for _, r := range rs {
 			n, t := canon(r.Resource)
@@ -74,10 +85,10 @@ func generateAll(st *site, ps *model.PushContext) map[string]string {
 		p.SetGatewaysForProxy(ps)
 		p.DiscoverIPMode()
 		p.LastPushContext = ps
-		req := &model.PushRequest{Push: ps, Forced: true, Reason: model.NewReasonStats(model.ConfigUpdate)}
-		clusters, _ := st.s.ConfigGen.BuildClusters(p, req)
+		req := &model.PushRequest{Push: ps, Forced: true, Reason: model.NewReasonStats(model.ConfigUpdate), Start: start}
+		clusters, _ := cg.BuildClusters(p, req)
 		put(d.Name, "CDS", clusters)
-		ls := st.s.ConfigGen.BuildListeners(p, ps)
+		ls := cg.BuildListeners(p, ps)
 		var lrs []*discovery.Resource
 		for _, l := range ls {
 			lrs = append(lrs, &discovery.Resource{Name: l.Name, Resource: protoconv.MessageToAny(l)})
@@ -85,17 +96,17 @@ func generateAll(st *site, ps *model.PushContext) map[string]string {
 		put(d.Name, "LDS", lrs)
 		routeNames := xdstest.ExtractRoutesFromListeners(ls)
 		if len(routeNames) > 0 {
-			routes, _ := st.s.ConfigGen.BuildHTTPRoutes(p, req, routeNames)
+			routes, _ := cg.BuildHTTPRoutes(p, req, routeNames)
 			put(d.Name, "RDS", routes)
 		}
 		var edsNames []string
 		for _, c := range clusters {
 			edsNames = append(edsNames, c.Name)
 		}
-		eg := &xds.EdsGenerator{Cache: model.DisabledCache{}, EndpointIndex: env.EndpointIndex}
+		eg := &xds.EdsGenerator{Cache: edsCache, EndpointIndex: env.EndpointIndex}
 		eds, _, _ := eg.Generate(p, &model.WatchedResource{TypeUrl: v3.EndpointType, ResourceNames: sets.New(edsNames...)}, req)
 		put(d.Name, "EDS", eds)
-		if nt := st.s.ConfigGen.BuildNameTable(p, ps); nt != nil && d.Name != "router" {
+		if nt := cg.BuildNameTable(p, ps); nt != nil && d.Name != "router" {
 			put(d.Name, "NDS", []*discovery.Resource{{Name: "nametable", Resource: protoconv.MessageToAny(nt)}})
 		}
 	}
@@ -108,31 +119,63 @@ func runRebuildCase(c caseDef) caseResult {
 	st := newSite(c.Base, c.Debounce, false)
 	defer st.close()
 	w := c.Base.clone()
-	none := []*clientSet{}
+	// connected clients: their pushes fill the server's xDS cache as in a real istiod
+	st.clients = st.connectAll()
+	none := []*clientSet{st.clients}
 	if !st.quiesce(none, calmTime, settleTime) {
 		return caseResult{Verdict: "FAIL no-quiescence initial"}
 	}
 	env := st.s.Discovery.Env
+	// recorded finding 7 (see converge.go): its trigger is followed through the walk; the differences it explains are
+	// set aside and reported at the end of the walk (as that finding) unless something else fails first
+	dnsZeroed := dnsZeroTracker{}
+	var known []string
+	knownAfter := 0
 	compare := func(after int) *caseResult {
 		attempt := func() []string {
 			ps1 := env.PushContext()
 			ps2 := model.NewPushContext()
 			ps2.InitContext(env, nil, nil)
-			a, b := generateAll(st, ps1), generateAll(st, ps2)
-			var bad []string
-			for k, v := range a {
-				if bv, ok := b[k]; !ok {
-					bad = append(bad, k+":extra")
-				} else if bv != v {
-					bad = append(bad, k+":stale "+firstDifference(v, bv))
+			a, b := generateAll(st, ps1, false), generateAll(st, ps2, false)
+			diff := func(a, b map[string]string, tag string) []string {
+				var bad []string
+				for k, v := range a {
+					if bv, ok := b[k]; !ok {
+						bad = append(bad, k+":extra"+tag)
+					} else if bv != v {
+						bad = append(bad, k+":stale"+tag+" "+firstDifference(v, bv))
+					}
 				}
-			}
-			for k := range b {
-				if _, ok := a[k]; !ok {
-					bad = append(bad, k+":missing")
+				for k := range b {
+					if _, ok := a[k]; !ok {
+						bad = append(bad, k+":missing"+tag)
+					}
 				}
+				sort.Strings(bad)
+				return bad
 			}
-			sort.Strings(bad)
+			// differences explained by recorded finding 7 are set aside
+			setAside := func(bad []string) []string {
+				var rest []string
+				for _, x := range bad {
+					k := strings.SplitN(x, " ", 2)[0] // proxy/type/name:kind
+					f := strings.SplitN(k, "/", 3)
+					if i := strings.LastIndex(k, ":"); len(f) == 3 && i > 0 && dnsZeroed.matches(f[1], f[2][:strings.LastIndex(f[2], ":")], k[i+1:]) {
+						if len(known) < 6 {
+							known, knownAfter = append(known, k[:i]+":"+kindDNSLastWorkload), after
+						}
+						continue
+					}
+					rest = append(rest, x)
+				}
+				return rest
+			}
+			bad := setAside(diff(a, b, ""))
+			if len(bad) == 0 {
+				// the same once more through the server's xDS cache (read AND written here, and by the connected clients'
+				// pushes): an entry that an earlier step left behind and no Clear removed shows as a difference
+				bad = setAside(diff(generateAll(st, ps1, true), b, "-cached"))
+			}
 			return bad
 		}
 		bad := attempt()
@@ -158,7 +201,11 @@ func runRebuildCase(c caseDef) caseResult {
 				detail = append(detail, x)
 			}
 		}
-		return &caseResult{Verdict: fmt.Sprintf("FAIL rebuild-ne-build %s after-step=%d n=%d world=%s", strings.Join(toks, ","), after, len(bad), w.tok()),
+		clause := "rebuild-ne-build"
+		if strings.Contains(strings.SplitN(bad[0], " ", 2)[0], "-cached") {
+			clause = "cached-ne-build"
+		}
+		return &caseResult{Verdict: fmt.Sprintf("FAIL %s %s after-step=%d n=%d world=%s", clause, strings.Join(toks, ","), after, len(bad), w.tok()),
 			Detail: detail}
 	}
 	if r := compare(0); r != nil {
@@ -171,6 +218,7 @@ func runRebuildCase(c caseDef) caseResult {
 		if err := st.apply(s.Op, s.ID, s.Variant, w); err != nil {
 			return caseResult{Verdict: fmt.Sprintf("FAIL apply-error step=%d %s", i+1, wire.Enc(err.Error()))}
 		}
+		dnsZeroed.step(s, w)
 		if s.Op == "delete" {
 			delete(w, s.ID)
 		} else {
@@ -182,6 +230,13 @@ func runRebuildCase(c caseDef) caseResult {
 		if r := compare(i + 1); r != nil {
 			return *r
 		}
+	}
+	if len(known) > 0 {
+		var toks []string
+		for _, k := range known {
+			toks = append(toks, wire.Enc(k))
+		}
+		return caseResult{Verdict: fmt.Sprintf("FAIL rebuild-ne-build %s after-step=%d n=%d world=%s", strings.Join(toks, ","), knownAfter, len(known), w.tok())}
 	}
 	return caseResult{Verdict: fmt.Sprintf("OK steps=%d", len(c.Steps))}
 }
@@ -204,6 +259,7 @@ func genRebuild(seed uint64, n int, out string) {
 	for _, d := range gwapiUniverse {
 		objs = append(objs, obj{d.ID, len(d.Variants)})
 	}
+	objs = append(objs, obj{meshID, len(meshVariants)})
 	// n = total number of steps, spread over walks of at most 60 steps (a replay stays short)
 	walk := 0
 	for left := n; left > 0; walk++ {
